@@ -44,3 +44,33 @@ class CacheUser:
         with CobaContext.cacher.get_set(key, getter) as f:
             lines = [l.rstrip("\n") for l in f]
         yield (tuple(item), lines, os.getpid())
+
+from contextlib import nullcontext
+from coba.context.cachers import Cacher
+
+class FileCacher(Cacher):
+    """A user-defined cacher (not a DiskCacher) whose storage is shared between processes: plain files written line by
+    line, i.e. a reader that is let in during a write sees a strict prefix. Only the ConcurrentCacher that
+    CobaMultiprocessor wraps around CobaContext.cacher makes it safe."""
+    def __init__(self, directory, delay=0.01):
+        self.directory, self.delay = directory, delay
+    def _path(self, key):
+        return os.path.join(self.directory, f"{key}.txt")
+    def __contains__(self, key):
+        return os.path.exists(self._path(key))
+    def rmv(self, key):
+        if key in self: os.unlink(self._path(key))
+    def get_set(self, key, getter):
+        if key not in self:
+            os.makedirs(self.directory, exist_ok=True)
+            lines = getter() if callable(getter) else getter
+            try:
+                with open(self._path(key), "w") as f:
+                    for line in lines:
+                        f.write(line.rstrip("\r\n") + "\n"); f.flush()
+                        _time.sleep(self.delay)
+            except BaseException:
+                self.rmv(key)
+                raise
+        with open(self._path(key)) as f:
+            return nullcontext(f.read().splitlines())
